@@ -60,53 +60,77 @@ Fixpoint merge_back (tbl : list (string * clone_kind)) (parent child : cstate) :
 Inductive ctx := CParen | CCmdSubst | CBackquote | CPipeFirst | CPipeLast | CBackground
                | CProcSubstIn | CProcSubstOut | CCoproc.
 
+(** ** options that decide where a pipeline stage runs *)
+Record popts := mkOpts {
+  o_lastpipe : bool;    (* shopt -s lastpipe  (run_last_pipeline_cmd_in_current_shell) *)
+  o_jobctl : bool;      (* set -m             (enable_job_control) *)
+  o_pipefail : bool     (* set -o pipefail    (only the status depends on it) *)
+}.
+
+(** interp.rs, [spawn_pipeline_processes] and [Pipeline::execute]: the last stage of a
+    multi-command pipeline runs in the shell executing the pipeline iff `lastpipe` is on and
+    job control is off; every other stage always runs in a copy. *)
+Definition runs_last_stage_in_current (o : popts) : bool := o_lastpipe o && negb (o_jobctl o).
+
+(** is the context a subshell (a clone) under these options? *)
+Definition is_subshell (o : popts) (c : ctx) : bool :=
+  match c with
+  | CPipeLast => negb (runs_last_stage_in_current o)
+  | _ => true
+  end.
+
 Inductive mut :=
 | MField (f : string) (v : content)     (* any builtin/assignment whose effect lives in field f *)
 | MUmask (z : Z)
 | MUlimit (z : Z)                       (* ulimit -n z *)
 | MExit (n : Z)
+| MReturn (n : Z)
+| MCall (body : list mut)               (* a function call in the current shell *)
 | MSub (c : ctx) (body : list mut).
 
-Inductive flow := Go | Exited.
+Inductive flow := Go | Exited | Returned.
 
 (** the status field legitimately changes *)
 Definition status_field : string := "last_exit_status".
 
-Fixpoint run_mut (m : mut) (w : world) {struct m} : world * flow :=
+Definition run_seq (step : mut -> world -> world * flow) : list mut -> world -> world * flow :=
+  fix run (l : list mut) (w : world) : world * flow :=
+    match l with
+    | [] => (w, Go)
+    | m :: l' => let '(w1, fl) := step m w in
+                 match fl with Go => run l' w1 | _ => (w1, fl) end
+    end.
+
+Fixpoint run_mut (o : popts) (m : mut) (w : world) {struct m} : world * flow :=
   match m with
   | MField f v => ((cset f v (fst w), snd w), Go)
   | MUmask z => ((fst w, mkPg z (pg_nofile (snd w)) (pg_cwd (snd w))), Go)
   | MUlimit z => ((fst w, mkPg (pg_umask (snd w)) z (pg_cwd (snd w))), Go)
   | MExit n => (w, Exited)
+  | MReturn n => (w, Returned)
+  | MCall body =>
+      let '(w', fl) := run_seq (run_mut o) body w in
+      (w', match fl with Returned => Go | f => f end)
   | MSub c body =>
-      let child : world := (clone_shell (fst w), snd w) in
-      let '(w', fl') :=
-        (fix run (l : list mut) (w : world) : world * flow :=
-           match l with
-           | [] => (w, Go)
-           | m :: l' => let '(w1, fl) := run_mut m w in
-                        match fl with Go => run l' w1 | Exited => (w1, Exited) end
-           end) body child in
-      (* only the exit status (and output) flow back into the cloned part; the process-global
-         part is the same kernel object *)
-      ((cset status_field [lit "?"] (merge_back shell_clone_table (fst w) (fst w')), snd w'),
-       (* every context reduces the subshell's result to an exit code *)
-       match c, fl' with _, _ => Go end)
+      if is_subshell o c then
+        let child : world := (clone_shell (fst w), snd w) in
+        let '(w', _) := run_seq (run_mut o) body child in
+        (* only the exit status (and output) flow back into the cloned part; the process-global
+           part is the same kernel object; exit/return/break end the copy, not the parent *)
+        ((cset status_field [lit "?"] (merge_back shell_clone_table (fst w) (fst w')), snd w'), Go)
+      else
+        (* the last stage under lastpipe: a brace group in the current shell *)
+        let '(w', fl) := run_seq (run_mut o) body w in
+        ((cset status_field [lit "?"] (fst w'), snd w'), fl)
   end.
 
-Fixpoint run_list (l : list mut) (w : world) : world * flow :=
-  match l with
-  | [] => (w, Go)
-  | m :: l' => let '(w1, fl) := run_mut m w in
-               match fl with Go => run_list l' w1 | Exited => (w1, Exited) end
-  end.
+Definition run_list (o : popts) : list mut -> world -> world * flow := run_seq (run_mut o).
 
 (** ** which mutators leave the process-global part alone *)
 Fixpoint touches_pg (m : mut) : bool :=
   match m with
   | MUmask _ | MUlimit _ => true
-  | MSub _ body => (fix any (l : list mut) : bool :=
-                      match l with [] => false | x :: r => touches_pg x || any r end) body
+  | MSub _ body | MCall body => existsb touches_pg body
   | _ => false
   end.
 
